@@ -9,9 +9,9 @@ CHECKS = {
          "At check time /repo/a2lfile and /repo/a2lmacros are copied to a scratch directory, specification.rs is replaced by specification_orig.rs, the a2lmacros dependency is pointed at the copied in-tree crate and the probe is built against it; the same probe is built against the shipped crate. Both run on the C04 space (every tag x slot x enum item x 6 versions and every single deviation), a stride of the C01 cases and every token mutation / truncation of the carriers (1e5 inputs quick) with strict on and off; per case the transcript (result, canonical Debug of the model, Display of every diagnostic, written text, check() count, written text after sort()) must hash equal. A regenerated crate that does not compile is a violation.",
          "equality of behaviour is established on the enumerated corpus only; the probe canonicalises the Debug form because hash maps inside generic IF_DATA print in a per-process order",
          "DESIGN.md 5/C20"),
- "C19": ("bounded-exhaustive enumeration of conforming instances and of single-edit mismatching definitions for 6 macro invocations compiled with the in-tree a2lmacros; typed load/store/write round trips checked on every one",
-         "Five a2ml_specification! invocations (all scalars, char[n], arrays, enums with/without values, named/anonymous/nested structs, sequences incl. numeric ones, taggedstruct/taggedunion with blocks and repetition, references to earlier types, identical tags at different levels) expanded by the in-tree macro crate. The generated text constant is parsed by an independent A2ML parser and compared with a hand-written plain form; every enumerated instance (cap 120 / 400, in-file and built-in) must be valid, decode to Some(v), store/decode back to v, write the same payload tokens and survive update_a2ml + write + load; instances of every single-edit variant of the definition decoded with the typed code give None or a value, never a panic. A macro change whose expansion no longer compiles is reported as a violation by the driver.",
-         "the six specifications are fixed; the structural comparison of stored vs parsed generic data is replaced by comparing written tokens and typed values (a tag without a member is represented differently by the two producers)",
+ "C19": ("bounded-exhaustive enumeration of conforming instances and of single-edit mismatching definitions for 6 hand-written and 403 (thorough: 2059) generated macro invocations compiled with the in-tree a2lmacros; typed load/store/write round trips checked on every one",
+         "Six hand-written a2ml_specification! invocations (all scalars, char[n], arrays, enums with/without values, named/anonymous/nested structs, sequences incl. numeric ones, taggedstruct/taggedunion with blocks and repetition, references to earlier types, identical tags at different levels, colliding generated type names) plus one generated invocation per A2ML definition of the reference enumerator (depth 1 over all leaf types, arrays of arrays, sequences of arrays; thorough: also depth 2 over uint; each plain, with a named top-level type and with the first nested type declared by name first), all expanded by the in-tree macro crate. The generated text constant is parsed by an independent A2ML parser and compared with a hand-written plain form (generated ones: with the definition they were generated from); every enumerated instance (cap 120 / 400, in-file and built-in) must be valid, decode to Some(v), store/decode back to v, write the same payload tokens and survive update_a2ml + write + load; instances of every single-edit variant of the definition decoded with the typed code give None or a value, never a panic. A macro change whose expansion no longer compiles is reported as a violation by the driver.",
+         "the specification set is fixed at build time (committed generated files); shapes the macro rejects at expansion time (arrays of enum / struct, anonymous struct without a tag to name it) cannot be observed; the structural comparison of stored vs parsed generic data is replaced by comparing written tokens and typed values (a tag without a member is represented differently by the two producers)",
          "DESIGN.md 5/C19"),
  "C18": ("exhaustive enumeration of A2ML definitions from a grammar-based generator (programs) x bounded-exhaustive conforming instances x all single-token deviations x supply modes, judged by an independent reference matcher (strict and lenient) and payload-token equality",
          "Programs: every A2ML definition the generator builds to nesting depth 2 (thorough 3) from 14 leaf types (all 10 scalars, char[n], enums with and without values, 1- and 2-dimensional arrays), structs, taggedstruct / taggedunion items in the forms tag, tag member, block, repeated, repeated block, tag (member)*, top-level (member)*, plus variants where the top-level or the first nested enum / struct / taggedstruct / taggedunion is declared by name and referenced later. Per definition: all instances of the enumerator (cap 8 / 24) supplied in-file, built-in or both; for the first instances every single-token deletion, duplication, replacement by another lexical class and appended token that keeps /begin-/end balanced. Strict matcher accepts => ifdata_valid and payload tokens preserved (integer notation kept, floats at type precision); lenient matcher rejects => load succeeds, invalid, payload preserved; in between don't care; reload equal; ifdata_cleanup() keeps exactly the valid blocks.",
